@@ -28,11 +28,25 @@ SameOk(r) == r.sent = r.raw
 PowerOk(r) == /\ r.level \in 0..MaxRaw
               /\ (r.level = 0) <=> ~r.on
 
+\* C14: the same command with and without a switch of units in front of it.  a = with, b = without.
+Close1(x, y) == x - y \in -1..1
+HueClose(x, y) == Close1(x, y) \/ (x <= 1 /\ y >= MaxRaw - 1) \/ (y <= 1 /\ x >= MaxRaw - 1)
+PairOk(r) == /\ r.a[4] = r.b[4]                                     \* kelvin is never altered
+             /\ Close1(r.msa[1] * Base + r.msa[2], r.msb[1] * Base + r.msb[2])
+             /\ r.usa - r.usb \in -2..2
+             /\ Close1(r.a[3], r.b[3])
+             /\ IF r.rgb                                               \* compared as colours
+                THEN \/ (r.a[3] <= 1 /\ r.b[3] <= 1)
+                     \/ /\ Close1(r.a[2], r.b[2])
+                        /\ ((r.a[2] <= 1 /\ r.b[2] <= 1) \/ HueClose(r.a[1], r.b[1]))
+                ELSE Close1(r.a[2], r.b[2]) /\ HueClose(r.a[1], r.b[1])
+
 RowOk(r) == CASE r.kind = "colour" -> ColourOk(r)
               [] r.kind = "ms" -> MsOk(r)
               [] r.kind = "delay" -> DelayOk(r)
               [] r.kind = "roundtrip" -> RoundTripOk(r)
               [] r.kind = "same" -> SameOk(r)
+              [] r.kind = "pair" -> PairOk(r)
               [] r.kind = "power" -> PowerOk(r)
 
 Init == i = 1 /\ bad = 0
